@@ -289,6 +289,45 @@ pub fn worker(wi: usize, wn: usize, tier: &str) {
             }
         }
     }
+    // tenant index mapping: every sequence of up to 3 server starts over a family of API-key
+    // sets (tenants with one or two keys, tenants added later): distinct tenants never share an
+    // index and a tenant's index never changes across restarts
+    if wi == 0 {
+        let families: Vec<Vec<&str>> = vec![vec!["a"], vec!["a", "b"], vec!["a", "a", "b"], vec!["b", "a", "c"], vec!["a", "a", "b", "b", "c"], vec!["c"], vec!["a", "b", "c", "d"], vec!["d", "d"]];
+        let scratch = vcore::Scratch::new("c10map");
+        let mut n = 0u64;
+        for len in 1..=3usize {
+            for s in sequences(families.len(), len, &[]) {
+                n += 1;
+                let dir = scratch.path.join("m");
+                let _ = std::fs::remove_dir_all(&dir);
+                std::fs::create_dir_all(&dir).unwrap();
+                let starts: Vec<Vec<String>> = s.iter().map(|i| families[*i].iter().map(|x| x.to_string()).collect()).collect();
+                match tenant_map_history(&dir, &starts) {
+                    Err(e) => st.viol.push(("C10|tenant-index-map|start-fails".into(), json!({"starts": starts, "detail": e}))),
+                    Ok(hist) => {
+                        let mut seen: BTreeMap<String, u32> = BTreeMap::new();
+                        for (k, m) in hist.iter().enumerate() {
+                            let mut by_idx: BTreeMap<u32, &String> = BTreeMap::new();
+                            for (t, i) in m {
+                                if let Some(other) = by_idx.insert(*i, t) {
+                                    st.viol.push(("C10|tenant-index-map|two-tenants-share-an-index".into(), json!({"engine":"srvmc","check":"C10","starts": starts, "detail": format!("after start {k}: tenants {other} and {t} both map to index {i}: {m:?}")})));
+                                }
+                                if let Some(prev) = seen.get(t) {
+                                    if prev != i {
+                                        st.viol.push(("C10|tenant-index-map|index-changes-across-restart".into(), json!({"engine":"srvmc","check":"C10","starts": starts, "detail": format!("tenant {t}: index {prev} then {i}")})));
+                                    }
+                                }
+                                seen.insert(t.clone(), *i);
+                            }
+                        }
+                    }
+                }
+            }
+        }
+        st.projections += 0;
+        st.calls += n;
+    }
     // direct: a request without tenant context is refused; usage scope=all needs admin
     let c = cfg("euclidean");
     let srv = build(&c);
@@ -350,7 +389,7 @@ pub fn run(tier: &str, replay: Option<&str>) -> i32 {
     ev.set("traces_validated_against_impl", tot["sequences"]);
     ev.set("evaluations", tot["sequences"]);
     ev.set("distinct_nontrivial", tot["compared"]);
-    ev.set("rule", format!("all {n}^{depth} sequences over a {n}-letter alphabet (23 RPC forms x 2 tenants: Insert incl. spoofed reserved keys and namespace, BulkInsert, BulkLoadHnsw, Query, BulkQuery, Search with k 1/2, namespace, hostile filters naming the other tenant's reserved key / NOT / OR / legacy metadata_filters, BulkSearch, UpdateMetadata merge and replace-with-spoof, Delete, BatchDelete by ids and by filters that match everything or name the other tenant, FlushHotTier) on the real in-process handlers with auth on, colliding local ids {{1,2}} and identical vectors; oracle: for each tenant, its responses must be identical when the other tenant's requests are deleted from the sequence (projection run on a fresh server), plus no reserved key and no global id in any response, per-tenant /usage unchanged by the other tenant, scope=all refused to non-admin, request without tenant context refused. states = distinct response vectors; non-trivial = observer responses compared against a projection"));
+    ev.set("rule", format!("all {n}^{depth} sequences over a {n}-letter alphabet (23 RPC forms x 2 tenants: Insert incl. spoofed reserved keys and namespace, BulkInsert, BulkLoadHnsw, Query, BulkQuery, Search with k 1/2, namespace, hostile filters naming the other tenant's reserved key / NOT / OR / legacy metadata_filters, BulkSearch, UpdateMetadata merge and replace-with-spoof, Delete, BatchDelete by ids and by filters that match everything or name the other tenant, FlushHotTier) on the real in-process handlers with auth on, colliding local ids {{1,2}} and identical vectors; oracle: for each tenant, its responses must be identical when the other tenant's requests are deleted from the sequence (projection run on a fresh server), plus no reserved key and no global id in any response, per-tenant /usage unchanged by the other tenant, scope=all refused to non-admin, request without tenant context refused; plus every sequence of <= 3 server starts over 8 API-key sets (multi-key tenants, tenants added later) through the real TenantIdMapper: indices injective and stable. states = distinct response vectors; non-trivial = observer responses compared against a projection"));
     ev.set("samples", json!([alphabet()[1], alphabet()[11], alphabet()[21]]));
     ev.set("exhaustive", true);
     ev.set("projection_runs", tot["projections"]);
